@@ -165,7 +165,7 @@ class Source:
 
 def item_attrs(src, kind, name):
     """Text of the attribute / doc-comment lines directly above a top-level item."""
-    mm = re.search(r'(?m)^[ \t]*(pub(\([^)]*\))?\s+)?%s\s+%s\b[^{;]*\{' % (kind, re.escape(name)), src.m)
+    mm = re.search(r'(?m)^[ \t]*(pub(\([^)]*\))?\s+)?%s\s+%s\b[^{;(]*[{(;]' % (kind, re.escape(name)), src.m)
     if not mm:
         raise LostAnchor('%s: %s %s not found' % (src.path, kind, name))
     lines = src.text[:mm.start()].split('\n')
